@@ -16,7 +16,7 @@ DEFAULT = dict(
     tag=st.sampled_from(["@a", "@b", "@c", "@a", "@<a>", "@x<b>y", "@"]),
     ktype=st.sampled_from(KEYWORD_TYPES),
     max_scenarios=3, max_rules=3, max_steps=3, max_examples=3, max_rows=3, max_cols=3, max_tags=3,
-    p_ragged=0.06, p_scrambled_locations=0.3, p_shared_tag=0.12, p_shared_node=0.1, p_any_order=0.25, p_bg=0.6, p_rule_bg=0.5, p_arg=0.4, p_outline=0.45, p_header=0.8,
+    p_ragged=0, p_scrambled_locations=0.3, p_shared_tag=0, p_shared_node=0, p_any_order=0.25, p_bg=0.6, p_rule_bg=0.5, p_arg=0.4, p_outline=0.45, p_header=0.8,
     language=st.sampled_from(["en", "fr", "en-pirate"]),
     uri=st.sampled_from(["u.feature", "dir/x y.feature", "", "./features/a.feature", "../up.feature", "/abs/path.feature", "C:\\dir\\w.feature", "file:///x.feature",
                          " spaced .feature ", "ünï/ç.feature", "./", "a/./b/../c.feature"]),
